@@ -47,6 +47,18 @@ func HarnessCursor() {
 	tx, err := db.Begin(writable)
 	zz.Assert(err == nil, "cursor/begin")
 	b := tx.Bucket([]byte("b"))
+	var cur *Cursor
+	if writable && zz.Param("reuse", 0) == 1 && zz.Choose(2) == 1 {
+		// the cursor exists and was positioned before the transaction's puts and deletes; afterwards it
+		// is repositioned by an absolute call (First/Last/Seek), as the documentation demands
+		zz.Reach("cursor-reused-across-mutation")
+		cur = b.Cursor()
+		if zz.Choose(2) == 0 {
+			cur.First()
+		} else {
+			cur.Seek([]byte("k08"))
+		}
+	}
 	if writable {
 		zz.Reach("write-tx")
 		// delete a contiguous range [i, j) of the existing plain keys
@@ -110,7 +122,9 @@ func HarnessCursor() {
 			}
 		}
 	}
-	cur := b.Cursor()
+	if cur == nil {
+		cur = b.Cursor()
+	}
 	steps := zz.Param("steps", 3)
 	ended := false
 	posLost := false // known finding C05/next-off-end: Next ran off the end onto a leaf emptied in this tx
